@@ -217,6 +217,9 @@ def run_program(ctx, bt, spec):
 
 
 def run(ctx, bt):
+    from .. import gen_engine as _G
+    run_engine_protocol(ctx, bt, ctx.scale(25, 400), [Monitor(ctx)], FOOT_FIELDS, None, spec_kwargs={"fi_tree": True},
+                        spec_mutator=_G.carry_open_close, corr_name="step[C17]:carry-open-close")
     run_engine_protocol(ctx, bt, ctx.scale(90, 1000), [Monitor(ctx)], FOOT_FIELDS, None, spec_kwargs={"fi_tree": True}, corr_name="step[C17]")
     for _ in range(ctx.scale(80, 1500)):
         spec = gen_program(ctx.rng)
